@@ -687,7 +687,7 @@ class Bin(Factory, Container):
             high = self.high
         else:  # high < self.high and high >= self.low
             maxBin = self.bin(high)
-            if np.isclose(high, self.low + self.bin_width() * maxBin):
+            if self._isEdge(high, maxBin):
                 maxBin -= 1
             high = self.low + self.bin_width() * (maxBin + 1)
         # number of bins. use np.round to correct for machine level rounding errors
@@ -696,6 +696,15 @@ class Bin(Factory, Container):
     def bin_width(self):
         """Returns bin width"""
         return (self.high - self.low) / len(self.values)
+
+    def _isEdge(self, x, index):
+        """Is x the low edge of bin index, up to rounding?
+
+        The tolerance is relative to the bin width and to the magnitude of the edge: numpy's defaults
+        (1e-8 absolute, 1e-5 relative) swallow whole bins when they are narrow or far from zero.
+        """
+        edge = self.low + self.bin_width() * index
+        return bool(np.isclose(x, edge, rtol=2 * np.finfo(float).eps, atol=1e-9 * self.bin_width()))
 
     def bin_entries(self, low=None, high=None, xvalues=[]):
         """Returns bin values
@@ -733,7 +742,7 @@ class Bin(Factory, Container):
             maxBin = len(self.values) - 1
         else:  # high < self.high and high >= self.low
             maxBin = self.bin(high)
-            if np.isclose(high, self.low + self.bin_width() * maxBin):
+            if self._isEdge(high, maxBin):
                 maxBin -= 1
         return np.array([self.values[i].entries for i in range(minBin, maxBin + 1)])
 
@@ -770,7 +779,7 @@ class Bin(Factory, Container):
             high = self.high
         else:  # high < self.high and high >= self.low
             maxBin = self.bin(high)
-            if np.isclose(high, self.low + self.bin_width() * maxBin):
+            if self._isEdge(high, maxBin):
                 maxBin -= 1
             high = self.low + self.bin_width() * (maxBin + 1)
         # low and high are bin edges now: count the bins between them as num_bins() does (asking it again
@@ -808,7 +817,7 @@ class Bin(Factory, Container):
             maxBin = len(self.values) - 1
         else:  # high < self.high and high >= self.low
             maxBin = self.bin(high)
-            if np.isclose(high, self.low + self.bin_width() * maxBin):
+            if self._isEdge(high, maxBin):
                 maxBin -= 1
 
         return self.low + (np.linspace(minBin, maxBin, maxBin - minBin + 1) + 0.5) * self.bin_width()
